@@ -59,6 +59,7 @@ pub struct CmpTables {
 /// Build and check the per-trait models of `traits` (indices) for both item kinds; structural
 /// findings go to `rep` under `prefix`. Returns the struct-role tables.
 pub fn cmp_models(cx: &Cx, rep: &mut Report, traits: &[usize], prefix: &str, report_structure: bool) -> CmpTables {
+    crate::misc::attr_fields_rule(cx, rep);
     let mut scratch = Report::new(&rep.prop, &rep.tier, &cx.verif);
     let am = attr_map(&cx.ix, rep);
     let mut cache = InstCache::default();
@@ -154,7 +155,7 @@ pub fn table_vs_reference(cx: &Cx, rep: &mut Report, ct: &CmpTables, t: usize, p
 pub fn gate_check(cx: &Cx, rep: &mut Report, own: &[usize], prefix: &str) -> Option<GateModel> {
     crate::misc::kinds_filled_rule(cx, rep);
     match gate_model(&cx.ix) {
-        Err(e) => { rep.fail("unanalysable", "gate", "gate-model", &e, "item_type.rs HelperAttributeKinds", json!({})); None }
+        Err(e) => { rep.fail(if e.starts_with("recording the derived traits") { "DM-gate" } else { "unanalysable" }, "gate", "gate-model", &e, "item_type.rs HelperAttributeKinds", json!({})); None }
         Ok(g) => {
             rep.analysed.insert("gate paths".into(), json!(g.paths));
             for a in 0..5 {
@@ -224,7 +225,7 @@ fn all_tables(cx: &Cx, rep: &mut Report) -> (CmpTables, Option<GateModel>) {
     crate::misc::kinds_filled_rule(cx, rep);
     let traits: Vec<usize> = (0..5).collect();
     let ct = cmp_models(cx, rep, &traits, "", false);
-    let g = match gate_model(&cx.ix) { Ok(g) => Some(g), Err(e) => { rep.fail("unanalysable", "gate", "gate-model", &e, "-", json!({})); None } };
+    let g = match gate_model(&cx.ix) { Ok(g) => Some(g), Err(e) => { rep.fail(if e.starts_with("recording the derived traits") { "DM-gate" } else { "unanalysable" }, "gate", "gate-model", &e, "-", json!({})); None } };
     (ct, g)
 }
 
